@@ -102,7 +102,9 @@ CHECKS['C04'] = dict(
         'invariant over a partial count); check_for_permutation_failures reports no failure exactly when the differing actual lines are a rearrangement of the '
         'expected ones (<= 3 cases); wrong_number reports at least one difference whenever reached with a non-empty side (lists of any length); '
         'normalize_function selects exactly the requested stripping; can_ignore holds iff the reference line contains an ignore-substring or the lines are '
-        'pattern-equivalent (loop invariant; check_patterns uninterpreted). Longer texts, the pattern rule itself and the three entry points are decided by the '
+        'pattern-equivalent (loop invariant; check_patterns uninterpreted). The three entry points check_string_against_file, check_file and check_files are proved to '
+        'read the reference (and the actual file) whole, to cut both texts into lines the same way, to hand paths and options to check_strings unchanged, to count a '
+        'missing file as a failure and to add up the failures of a list of pairs (a raising pair counting one). Longer texts and the pattern rule itself are decided by the '
         'bounded layer (labelled): an independent statement of the comparison rule evaluated on reference texts <= 3 lines x near-miss and compound actuals x '
         '28 option sets, judging only cases the documents fix.',
    note='Trusted: Python re, str methods (strip family as functions of the string), splitlines. check_patterns is an uninterpreted predicate in the proofs; '
